@@ -15,12 +15,17 @@ import (
 )
 
 type a6Exchange struct {
-	got *svc.MixedPayload
+	got      *svc.MixedPayload
+	gotLogin *svc.LoginPayload
 	w   *recWriter
 	err error
 }
 
 func a6Serve(req *http.Request, sent any, res *svc.MixedResult) *a6Exchange {
+	return a6ServeBoth(req, sent, res, nil)
+}
+
+func a6ServeBoth(req *http.Request, sent any, res *svc.MixedResult, loginRes *svc.LoginResult) *a6Exchange {
 	x := &a6Exchange{}
 	target := req.URL.RequestURI()
 	u, perr := url.ParseRequestURI(target)
@@ -29,7 +34,10 @@ func a6Serve(req *http.Request, sent any, res *svc.MixedResult) *a6Exchange {
 		return x
 	}
 	sreq := &http.Request{Method: req.Method, URL: u, Header: req.Header.Clone(), RequestURI: target}
-	eps := &svc.Endpoints{Mixed: func(ctx context.Context, v any) (any, error) { x.got = v.(*svc.MixedPayload); return res, nil }}
+	eps := &svc.Endpoints{
+		Mixed: func(ctx context.Context, v any) (any, error) { x.got = v.(*svc.MixedPayload); return res, nil },
+		Login: func(ctx context.Context, v any) (any, error) { x.gotLogin = v.(*svc.LoginPayload); return loginRes, nil },
+	}
 	mux := goahttp.NewMuxer()
 	dec := func(*http.Request) goahttp.Decoder {
 		return stubDecoder{func(v any) error { return verifJSONCopy(v, sent) }}
